@@ -39,8 +39,8 @@ var c07Dims = []struct {
 	{"msg", []string{"null", "scalar", "deep", "none", "string-with-question-mark"}},
 	{"ctl", []string{"nil", "limit-zero", "limit-negative", "breakpoint", "nil-breakpoints-huge-limit"}},
 	{"props", []string{"nil", "nested"}},
-	{"act", []string{"throw", "spin", "retnull", "retscalar", "retarray", "emitbad-nan", "emitbad-func", "emitbad-cycle", "setbad", "setcycle", "nerrpartial", "nnilexec", "nnilbs", "emit-throw", "none"}},
-	{"guard", []string{"throw", "spin", "retnull", "retscalar", "retarray", "emitbad-nan", "emitbad-cycle", "nerrpartial", "nnilexec", "nnilbs", "none"}},
+	{"act", []string{"throw", "spin", "retnull", "retscalar", "retarray", "emitbad-nan", "emitbad-func", "emitbad-cycle", "setbad", "setcycle", "getter-throw", "getter-loop", "nerrpartial", "nnilexec", "nnilbs", "nnoevents", "emit-throw", "none"}},
+	{"guard", []string{"throw", "spin", "retnull", "retscalar", "retarray", "emitbad-nan", "emitbad-cycle", "getter-throw", "nerrpartial", "nnilexec", "nnilbs", "nnoevents", "none"}},
 	{"err", []string{"aeb", "aen", "aen-missing-node"}},
 }
 
@@ -111,6 +111,12 @@ func behaviour(name string, native bool, guard bool) (*actlang.Prog, bool) {
 		return prog(native, Op{K: actlang.SetBad, A: "nan"}), true
 	case "setcycle":
 		return prog(false, Op{K: actlang.SetCycle, A: "loop"}), !native
+	case "getter-throw":
+		return prog(false, Op{K: actlang.RetGetter, A: "throw"}), !native
+	case "getter-loop":
+		return prog(false, Op{K: actlang.RetGetter, A: "loop"}), !native
+	case "nnoevents":
+		return prog(true, Op{K: actlang.NativeNoEvents}), native
 	case "nerrpartial":
 		return prog(true, Op{K: actlang.Emit, V: "partial"}, Op{K: actlang.NativeErrPartial}), native
 	case "nnilexec":
@@ -373,7 +379,7 @@ func c07Run(c *vh.Ctx, cs c07Case) (clause, detail string, nontrivial bool) {
 	}
 	ctx := context.Background()
 	var cancel context.CancelFunc = func() {}
-	if cs.Act == "spin" || cs.Guard == "spin" {
+	if cs.Act == "spin" || cs.Guard == "spin" || cs.Act == "getter-loop" {
 		ctx, cancel = context.WithTimeout(ctx, 25*time.Millisecond)
 	}
 	defer cancel()
